@@ -22,6 +22,10 @@ func (a *A) C07() {
 	a.mapIterationDeterminism()
 	a.firstPacketIdentity()
 	a.filtersFirst()
+	// a unit of one PID that fails to parse at the end of the stream must not keep the pending units of the other PIDs
+	// from being delivered: the drain rule of C02 (every dumped group is parsed, the end is reported only after an
+	// empty dump)
+	a.drainBeforeEnd()
 }
 
 func stripConvert(v ssa.Value) ssa.Value {
